@@ -23,6 +23,20 @@ PROPS = {
         bound_note="per-cell bound_completed in coverage.cells",
         assumptions=E1_ASSUME,
         deadline=dict(quick=200, thorough=2400),
+        technique="stateless model checking of the implementation: "
+                  "exhaustive deviation-bounded schedule enumeration "
+                  "(gsched) over all six barrier implementations",
+        level_text="every schedule with <= d deviations (d per cell, 1-3) of "
+                   "P<=4 participants x 2-3 phases (+ reinit to another "
+                   "count) on fake 1-4 socket machines is executed on the "
+                   "real barrier code; phase separation, return of all "
+                   "participants, reuse and reinit are checked on each",
+        level_note="bounded: P<=4, <=3 phases, deviation bound per cell; "
+                   "SC values for atomics; scheduler switches only at sync "
+                   "operations and promoted racy accesses",
+        design_ref="DESIGN.md 2, 7/C05",
         parts=[dict(engine="e1", harness="c05_barriers")],
     ),
 }
+
+NOT_APPLICABLE = {}
